@@ -101,6 +101,7 @@ def eval_axioms(eng, st):
         z3.Implies(z3.Or(leaf('RoleCheck'), leaf('GenericCheck'), leaf('HttpCheck')),
                    wfp(V.s(z3.Select(st.H('match'), r)))),
         z3.Implies(leaf('RuleCheck'), z3.And(V.is_obj(e), fp_or_fresh(V.ref(e)),
+                                             z3.Or(eng.isinst(e, 'Enforcer'), eng.isinst(e, 'FakeEnforcer')),
                                              rules_store_ok(eng, st, z3.Select(st.H('rules'), V.ref(e)), e))),
         z3.Implies(leaf('HttpCheck'), z3.And(http_ctx(e), fp_or_fresh(V.ref(e)))))
     return [qforall([c, e], z3.Implies(wf_eval(c, e), body), patterns=[wf_eval(c, e)])]
